@@ -150,15 +150,16 @@ def r1(ctx):
         ctx.check(not twice, R, f"{lab}:once", m, a["notifies"][0].ast, "at most one notification per update", "two notifications on one path")
 
 
-def _notify_elements(ctx, f: Fn, call: ast.Call):
+def _notify_elements(ctx, f: Fn, call: ast.Call, at=None):
     """(iterated container expr text, list of arg texts of the subscriber call) of `_notify_subscribers([s(x) for s in C])`"""
     if not call.args:
         return None
-    a = call.args[0]
+    at = at if at is not None else next((n for n, c in f.calls("_notify_subscribers") if c is call), None)
+    a = f.expand(call.args[0], at) if at is not None else call.args[0]
     if isinstance(a, (ast.ListComp, ast.GeneratorExp)) and len(a.generators) == 1 and isinstance(a.generators[0].target, ast.Name):
         v = a.generators[0].target.id
         if isinstance(a.elt, ast.Call) and isinstance(a.elt.func, ast.Name) and a.elt.func.id == v and not a.generators[0].ifs:
-            return norm_text(a.generators[0].iter), [norm_text(x) for x in a.elt.args] + [f"{k.arg}={norm_text(k.value)}" for k in a.elt.keywords]
+            return norm_text(f.expand(a.generators[0].iter, at) if at is not None else a.generators[0].iter), [norm_text(x) for x in a.elt.args] + [f"{k.arg}={norm_text(k.value)}" for k in a.elt.keywords]
     return None
 
 
